@@ -5,11 +5,11 @@ package memory
 import (
 	"bufio"
 	"bytes"
+	"debug/elf"
 	"encoding/json"
 	"fmt"
 	"math/rand"
 	"os"
-	"reflect"
 	"strconv"
 	"syscall"
 	"testing"
@@ -59,28 +59,56 @@ func pagePerms(base uintptr) [3]int {
 }
 
 type memRec struct {
-	Ev      string    `json:"ev"`
-	Where   string    `json:"where"`
-	Off     int       `json:"off"`
-	Len     int       `json:"len"`
+	Ev      string `json:"ev"`
+	Where   string `json:"where"`
+	Off     int    `json:"off"`
+	Len     int    `json:"len"`
 	PLocked [3]int `json:"p_locked"`
 	PRwx    [3]int `json:"p_rwx"`
 	PCopied [3]int `json:"p_copied"`
 	PRx     [3]int `json:"p_rx"`
 	PAfter  [3]int `json:"p_after"`
-	Changed [2]int    `json:"changed"`
-	Intact  bool      `json:"intact"`
-	Err     string    `json:"err"`
+	Changed [2]int `json:"changed"`
+	Intact  bool   `json:"intact"`
+	Err     string `json:"err"`
+	Mode    string `json:"mode"` // which bytes of the data differ from what is there: all / same / head / tail / mid
 }
 
 func oneWrite(where string, base uintptr, off, n int, rng *rand.Rand) memRec {
-	rec := memRec{Ev: "write", Where: where, Off: off, Len: n}
+	return oneWriteMode(where, base, off, n, rng, "all")
+}
+
+// oneWriteMode: mode says which bytes of the new data differ from the bytes already there - a patch that is written twice, an
+// unpatch of something already unpatched, a second jump that differs in a few operand bytes only are all legal writes
+func oneWriteMode(where string, base uintptr, off, n int, rng *rand.Rand, mode string) memRec {
+	rec := memRec{Ev: "write", Where: where, Off: off, Len: n, Mode: mode}
 	win := RawAccess(base, 3*4096)
 	before := make([]byte, len(win))
 	copy(before, win)
 	data := make([]byte, n)
+	cut := 1
+	if n > 1 {
+		cut = 1 + rng.Intn(n-1)
+	}
+	if b := 4096 - off%4096; b > 0 && b < n && rng.Intn(2) == 0 {
+		cut = b // exactly the bytes on one side of the page boundary
+	}
 	for i := range data {
-		data[i] = before[off+i] ^ byte(1+rng.Intn(255)) // every byte differs from what is there
+		differs := true
+		switch mode {
+		case "same":
+			differs = false
+		case "head":
+			differs = i < cut
+		case "tail":
+			differs = i >= cut
+		case "mid":
+			differs = i > 0 && i < n-1
+		}
+		data[i] = before[off+i]
+		if differs {
+			data[i] ^= byte(1 + rng.Intn(255))
+		}
 	}
 	VerifHook = func(point string, a, b uintptr) {
 		switch point {
@@ -158,6 +186,11 @@ func TestVerifMemWrite(t *testing.T) {
 						continue
 					}
 					enc.Encode(oneWrite(where, base, off, n, rng))
+					if n >= 2 && off < b && off+n > b { // straddling writes: also data that is partly / wholly what is there already
+						for _, mode := range []string{"same", "head", "tail", "mid"} {
+							enc.Encode(oneWriteMode(where, base, off, n, rng, mode))
+						}
+					}
 				}
 			}
 		}
@@ -166,14 +199,35 @@ func TestVerifMemWrite(t *testing.T) {
 		enc.Encode(oneWrite(where, base, 100, 13, rng))
 	}
 	sweep("scratch", base, []int{4096, 8192})
-	for _, f := range []interface{}{PaddingLeft, PaddingRight} {
-		p := reflect.ValueOf(f).Pointer()
-		// skip the ABI wrapper: look for the page boundary inside the next 3000 bytes of straight MOVQ CX,CX
-		b := (p + 4095) &^ 4095
-		if b-p > 64 && b-p < 2900 {
-			w := b - 4096
-			sweep("text", w, []int{4096})
-			break
+	// inside the text segment: a window of three whole pages of the driver's own NOP sled (never executed)
+	// (a func value of an assembly function points at its ABI wrapper: the sled itself is found by its bytes)
+	if VerifPadRef == nil { // (a real use: the linker drops unreferenced functions)
+		t.Fatal("no sled")
+	}
+	var p uintptr
+	if exe, err := os.Executable(); err == nil {
+		if f, err := elf.Open(exe); err == nil {
+			if text := f.Section(".text"); text != nil {
+				if data, err := text.Data(); err == nil {
+					if i := bytes.Index(data, bytes.Repeat([]byte{0x90}, 20000)); i >= 0 {
+						p = uintptr(text.Addr) + uintptr(i)
+					}
+				}
+			}
+			f.Close()
 		}
+	}
+	if p == 0 || *(*byte)(unsafe.Pointer(p)) != 0x90 {
+		return
+	}
+	w := (p + 4095) &^ 4095
+	inSled := true
+	for _, a := range []uintptr{w, w + 4096, w + 3*4096 - 1} {
+		if *(*byte)(unsafe.Pointer(a)) != 0x90 {
+			inSled = false
+		}
+	}
+	if inSled && pagePerms(w) == [3]int{5, 5, 5} {
+		sweep("text", w, []int{4096, 8192})
 	}
 }
